@@ -13,6 +13,10 @@ NAME_POOL = ['A', 'BA', 'CBA', 'AB', 'B', 'H2', 'O2', 'CO2', 'CO', 'H2O', 'OH', 
              'H2_kwargs_x', 'X']
 COEF = st.one_of(st.sampled_from([0.25, 0.5, 1.0, 1.5, 2.0, 3.0, 4.0]), st.floats(0.25, 4.0))
 QUANTS = ['CvoR', 'CpoR', 'UoRT', 'HoRT', 'SoR', 'FoRT', 'GoRT']
+# dimensional getter -> (dimensionless quantity, unit, multiplied by T)
+DIMS = {'Cv': ('CvoR', 'J/mol/K', False), 'Cp': ('CpoR', 'cal/mol/K', False), 'U': ('UoRT', 'kJ/mol', True),
+        'H': ('HoRT', 'kcal/mol', True), 'S': ('SoR', 'J/mol/K', False), 'F': ('FoRT', 'kJ/mol', True),
+        'G': ('GoRT', 'eV', True)}
 
 
 @st.composite
@@ -134,7 +138,27 @@ def check_hess(case, ctx):
         if S['ts'] is not None:
             ctx.close('%s/act-diff:%s' % (tag, q), f(rev=False, act=True, **kwargs) - f(rev=True, act=True, **kwargs),
                       f(rev=False, act=False, **kwargs), rtol=0, atol=2 * tol)
-    # dimensional spot check of one delta (full unit coverage is C04)
+    # dimensional state and delta getters obey the same sums (full unit coverage is C04)
+    from pmutt import constants as c_
+    for Q, (q, unit, withT) in DIMS.items():
+        S, scale = sums[q]
+        fac = c_.R(unit + '/K' if withT else unit) * (T if withT else 1.)
+        tol = (1e-10 * scale + 1e-12) * abs(fac)
+        kw = {k: v for k, v in kwargs.items() if k != 'T'}
+        for key, state in (('react', 'reactants'), ('prod', 'products'), ('ts', 'transition state')):
+            if S[key] is None:
+                continue
+            got = getattr(rxn, 'get_%s_state' % Q)(state=state, units=unit, T=T, **kw)
+            ctx.close('%s/dim-state:%s' % (tag, Q), got, S[key] * fac, rtol=0, atol=tol, detail='%s %s' % (state, unit))
+        for rev in (False, True):
+            for act in (False, True):
+                if act and S['ts'] is None:
+                    continue
+                ini = S['prod'] if rev else S['react']
+                fin = S['ts'] if act else (S['react'] if rev else S['prod'])
+                got = getattr(rxn, 'get_delta_%s' % Q)(units=unit, T=T, rev=rev, act=act, **kw)
+                ctx.close('%s/dim-delta:%s' % (tag, Q), got, (fin - ini) * fac, rtol=0, atol=tol,
+                          detail='rev=%s act=%s %s' % (rev, act, unit))
     # equilibrium constant
     S, scale = sums['GoRT']
     for rev in (False, True):
@@ -212,6 +236,16 @@ def check_hess(case, ctx):
                 got = rxn.get_delta_EoRT(rev=True, act=True, include_ZPE=inc, **kwargs)
                 ctx.close('C08.hess/delta:EoRT', got, tot['ts'] - tot['prod'], rtol=0, atol=1e-10 * sc + 1e-12,
                           detail='rev act include_ZPE=%s' % inc)
+            facE = c_.R('kJ/mol/K') * T
+            kwE = {k: v for k, v in kwargs.items() if k != 'T'}
+            ctx.close('C08.hess/dim-delta:E', rxn.get_delta_E(units='kJ/mol', T=T, include_ZPE=inc, **kwE),
+                      (tot['prod'] - tot['react']) * facE, rtol=0, atol=(1e-10 * sc + 1e-12) * facE,
+                      detail='include_ZPE=%s' % inc)
+            for key, state in (('react', 'reactants'), ('prod', 'products'), ('ts', 'transition state')):
+                if tot[key] is not None:
+                    ctx.close('C08.hess/dim-state:E', rxn.get_E_state(state=state, units='kJ/mol', T=T, include_ZPE=inc, **kwE),
+                              tot[key] * facE, rtol=0, atol=(1e-10 * sc + 1e-12) * facE,
+                              detail='%s include_ZPE=%s' % (state, inc))
     # purity: the caller's dictionaries are left alone
     if kwargs != before:
         ctx.fail('C08.hess/kwargs-mutated', 'before %r after %r' % (before, kwargs))
@@ -224,7 +258,7 @@ CLAUSES = [
            '(fractional), optional 1-2 TS species; Reaction / ChemkinReaction / SurfaceReaction; T, P and 0-2 per-species '
            'keyword blocks. Oracle: sums of the species\' own getters evaluated by the harness under each species\' own '
            'conditions (state, delta for all (rev, act), act getters, reversal, forward-reverse, ln Keq, Kf*Kr, ln q ratios, '
-           'EoRT, caller kwargs unchanged). Non-trivial = >=2 species per side with a fractional coefficient, or a TS, or a '
+           'EoRT, the dimensional state/delta getters in one unit each, caller kwargs unchanged). Non-trivial = >=2 species per side with a fractional coefficient, or a TS, or a '
            'per-species block addressing a participating species', quick_shards=6),
 ]
 ASSUMPTIONS = ['tolerance 1e-10 x sum of |nu X| (large electronic energies cancel)',
